@@ -375,6 +375,10 @@ NO_DEBUG_PROFILE = ["--config", "profile.dev.debug-assertions=false", "--config"
 NOASYNC_BINS = {"C11": ["c11_build"], "C12": ["c11_build"], "C13": ["c13_ranks"], "C14": ["c14_seq"], "C16": ["c16_edges"]}
 
 
+# ... and in /verif/replay_fnmeta: compiled against fn_graph WITH `fn_meta` (DataAccessDyn comes from the blanket impl over FnMetaDyn)
+FNMETA_BINS = {"C01": [("c11_build", []), ("c_sched", ["C01"])], "C06": [("c11_build", []), ("c_sched", ["C06"])], "C11": [("c11_build", [])], "C12": [("c11_build", [])]}
+
+
 def _native_jobs(prop, repo, outdir):
     """(label, cwd, cmd) of every native run registered for the property: each harness in the dev profile, then in the
     profile without debug assertions, then (builder side) against the crate without its `async` feature."""
@@ -392,12 +396,23 @@ def _native_jobs(prop, repo, outdir):
         if b[0] == "c_run":
             cmd = ["cargo", "run", "--offline", "--quiet", "--target-dir", tdir, "--bin", "c_run"] + b[1] + ["--"] + b[2]
             jobs.append((f"c_run {' '.join(b[2])}, driven by a tokio runtime", crate, cmd, True, {"VERIF_EXECUTOR": "tokio"}))
+    if FNMETA_BINS.get(prop):
+        crate3 = _crate_for(repo, "replay_fnmeta", outdir)
+        if repo != "/repo":
+            p_ = os.path.join(crate3, "Cargo.toml")
+            t_ = open(p_).read().replace("../replay/src", os.path.join(crate, "src"))
+            open(p_, "w").write(t_)
+        tdir3 = os.path.join(VERIF, "replay_fnmeta", "target") if repo == "/repo" else os.path.join(outdir, "replay_fnmeta_target")
+        for name, pargs in FNMETA_BINS[prop]:
+            cmd = ["cargo", "run", "--offline", "--quiet", "--target-dir", tdir3, "--bin", name] + (["--"] + pargs if pargs else [])
+            jobs.append((f"{name} {' '.join(pargs)}".strip() + ", fn_graph with its `fn_meta` feature (access lists through the blanket impls)", crate3, cmd, True, {}))
     if NOASYNC_BINS.get(prop):
         crate2 = _crate_for(repo, "replay_noasync", outdir)
         if repo != "/repo":
             # the crate takes its sources from ../replay/src: point it at the copy made above
             p_ = os.path.join(crate2, "Cargo.toml")
-            open(p_, "w").write(open(p_).read().replace("../replay/src", os.path.join(crate, "src")))
+            t_ = open(p_).read().replace("../replay/src", os.path.join(crate, "src"))
+            open(p_, "w").write(t_)
         tdir2 = os.path.join(VERIF, "replay_noasync", "target") if repo == "/repo" else os.path.join(outdir, "replay_noasync_target")
         for name in NOASYNC_BINS[prop]:
             cmd = ["cargo", "run", "--offline", "--quiet", "--target-dir", tdir2, "--bin", name]
